@@ -292,17 +292,16 @@ fn rnd_scmp_payload(rng: &mut Rng, p: &Pkt, kind: &mut String) -> Vec<u8> {
 // printing
 // ---------------------------------------------------------------------------------------------
 fn coq_dppath(p: &DpPath) -> String {
-    let info = |i: &sciparse::dataplane_path::standard::model::InfoField| format!("({},{},{})", i.flags.bits(), i.segment_id, i.timestamp);
+    let info = |i: &sciparse::dataplane_path::standard::model::InfoField| format!("(mkIF {} {} {})", i.flags.bits(), i.segment_id, i.timestamp);
     let hop = |h: &sciparse::dataplane_path::standard::model::HopField| {
-        let m = h.mac.0.iter().fold(0u64, |a, b| (a << 8) | *b as u64);
-        format!("({},{},{},{},{})", h.flags.bits(), h.expiration_units, h.cons_ingress, h.cons_egress, m)
+        format!("(mkHF {} {} {} {} {})", h.flags.bits(), h.expiration_units, h.cons_ingress, h.cons_egress, coq_bytes(&h.mac.0))
     };
     match p {
         DpPath::Empty => "DP_Empty".into(),
         DpPath::OneHop(o) => format!("(DP_OneHop {} {} {})", info(&o.info), hop(&o.hops[0]), hop(&o.hops[1])),
         DpPath::Standard(s) => format!("(DP_Std {} {} {})", s.current_info_field, s.current_hop_field,
-            coq_list(s.segments.iter().map(|g| format!("({},{})", info(&g.info_field), coq_list(g.hop_fields.iter().map(|h| hop(h))))))),
-        DpPath::Unsupported { path_type, data } => format!("(DP_Unsup {} {})", u8::from(*path_type), coq_bytes(data)),
+            coq_list(s.segments.iter().map(|g| format!("(mkSeg {} {})", info(&g.info_field), coq_list(g.hop_fields.iter().map(|h| hop(h))))))),
+        DpPath::Unsupported { path_type, data } => format!("(DP_Unsupported {} {})", u8::from(*path_type), coq_bytes(data)),
     }
 }
 fn path_of(view: &ScionRawPacketView) -> DpPath { view.header().path().to_model() }
@@ -391,8 +390,10 @@ fn gen_encode(rng: &mut Rng, o: &mut Out) {
         1 => PathSpec::OneHop(rnd_info(rng), rnd_hop(rng), rnd_hop(rng)),
         2 => PathSpec::Raw { pt: 3, data: vec![1; 4 * rng.range(0, 246) as usize] },
         3 => rnd_std(rng, 63),
-        _ => { let mut p = rnd_std(rng, 12); if let PathSpec::Std { ci, ch, .. } = &mut p { *ci = 0; *ch = 0; } p }
+        _ => rnd_std(rng, 12),
     };
+    // header validity is C03's subject: keep the reply path encodable (indices in range)
+    let pspec = match pspec { PathSpec::Std { segs, .. } => PathSpec::Std { ci: 0, ch: 0, segs }, p => p };
     // parse the path with the real parser to obtain the model (a packet carrying it)
     let carrier = Pkt { next: 17, dst_ia: IA_A, src_ia: IA_B, dst: dst.clone(), src: src.clone(), path: pspec, payload: vec![], plen: None, cut: None };
     let cb = carrier.bytes();
